@@ -246,7 +246,7 @@ func runC02(c *Ctx) {
 			ok := l != nil && ce != nil
 			if ok {
 				body := u.bdd.And(s.RC[l.Header], contCond(u, s, l))
-				rc := s.RC[site.Block()]
+				rc := s.RCAt(site)
 				arg := ce.Args[1]
 				if arg.Op == "field" && arg.Aux == "Hostnames" {
 					arg = arg.Args[0] // the names of the rule are handed over
@@ -269,7 +269,7 @@ func runC02(c *Ctx) {
 			ok := l != nil
 			if ok {
 				body := u.bdd.And(s.RC[l.Header], contCond(u, s, l))
-				rc := s.RC[site.Block()]
+				rc := s.RCAt(site)
 				var ist, hl Ref = False, False
 				for _, at := range u.AtomsOf(rc) {
 					if at.Op == "istype" && at.Aux == "*rules.NetworkRule" {
@@ -290,7 +290,7 @@ func runC02(c *Ctx) {
 				ok = rest == want && hl != False && isScannerLoop(l)
 			}
 			c.Check(ok, "C02.R3", "NewDNSEngine: a *NetworkRule is loaded exactly when IsHostLevelNetworkRule()", site.Pos(), "guarded by the true edge of IsHostLevelNetworkRule on the scanned rule",
-				"network rules are not loaded exactly under IsHostLevelNetworkRule() (all rules loaded, or some host-level rules skipped): "+clip(u.ShowBool(s.RC[site.Block()]), 200))
+				"network rules are not loaded exactly under IsHostLevelNetworkRule() (all rules loaded, or some host-level rules skipped): "+clip(u.ShowBool(s.RCAt(site)), 200))
 		}
 	}
 
